@@ -14,6 +14,7 @@
     corpus replayed against the real decoder by the check (KNOWN_FINDINGS F11a..F11j).
 -/
 import OllamaVerif.Proofs.GgufSafe
+import OllamaVerif.Proofs.GgufCreate
 
 namespace OllamaVerif.C10
 open OllamaVerif OllamaVerif.Gguf
@@ -84,5 +85,75 @@ def wGood : Bytes := [71, 71, 85, 70, 3, 0, 0, 0, 0, 0, 0, 0, 0, 0, 0, 0, 0, 0, 
 example : 16 * wGood.length ≤ budget ∧
     decode wGood 0 (some budget) Guards.pinned = decode wGood 0 (some budget) Guards.all ∧
     (decode wGood 0 (some budget)).isOk = true := ⟨by decide, by rfl, by decide⟩
+
+/-! ### `POST /api/create` on an uploaded file: `server/create.go ggufLayers`
+
+  The handler decodes the upload model after model (`for offset < size { _, n := Decode(blob); offset = n }`).
+  The model makes non-termination an explicit outcome (`none`). -/
+
+/-- **create terminates on every upload** (working tree's decoder, every budget) -/
+theorem create_terminates_tree (bs : Bytes) (budget : Option Nat) :
+    (ggufLayers bs budget).isSome = true :=
+  ggufLayers_terminates bs budget Guards.tree rfl
+
+/-- **create is safe on every upload**: no panic site, no allocation above the budget, however many
+    models the upload holds and wherever it is cut -/
+theorem create_safe_tree (bs : Bytes) (B : Nat) (hB : 16 * bs.length ≤ B) :
+    SafeL (ggufLayers bs (some B)) :=
+  ggufLayers_safe bs B hB
+
+/-- the layers create produces lie inside the upload -/
+theorem create_layers_within (bs : Bytes) (budget : Option Nat) (out : List GLayer)
+    (h : ggufLayers bs budget = some (.ok out)) : Within bs.length out :=
+  ggufLayers_within bs budget Guards.tree out h
+
+/-- a decode that starts at 0 and ends at 0 keeps the loop where it is: no fuel is ever enough -/
+theorem loop_stuck (bs : Bytes) (budget : Option Nat) (g : Guards) (d : Decoded) (hpos : 0 < bs.length)
+    (hd : decodeFrom ⟨bs, 0⟩ 0 budget g = .ok d) (hend : d.endOffset = 0) :
+    ∀ (fuel : Nat) (acc : List GLayer), ggufLayersLoop bs budget g fuel 0 acc = none := by
+  intro fuel
+  induction fuel with
+  | zero => intro acc; unfold ggufLayersLoop; rw [if_pos hpos]
+  | succ fuel ih =>
+    intro acc
+    unfold ggufLayersLoop
+    rw [if_pos hpos, List.drop_zero, hd]
+    simp only [hend]
+    exact ih _
+
+/-- **Witness (pinned decoder)**: on the 57-byte file of `witness_end_before_start` upstream's
+    create never answers: the decode "succeeds" with end offset 0 and the loop starts over, for ever
+    (KNOWN_FINDINGS C10 F11j; repaired by `fix: reject GGUF tensors whose size does not fit an int64 offset`). -/
+theorem witness_pinned_create_never_answers :
+    ggufLayers wNegSeek (some budget) Guards.pinned = none := by
+  have hd : ∃ d, decodeFrom ⟨wNegSeek, 0⟩ 0 (some budget) Guards.pinned = .ok d ∧ d.endOffset = 0 := by
+    cases h : decodeFrom ⟨wNegSeek, 0⟩ 0 (some budget) Guards.pinned with
+    | error e =>
+      have : (decode wNegSeek 0 (some budget) Guards.pinned).toOption.map (·.endOffset) = some 0 := witness_end_before_start
+      unfold decode at this; rw [h] at this; cases this
+    | ok d =>
+      refine ⟨d, rfl, ?_⟩
+      have : (decode wNegSeek 0 (some budget) Guards.pinned).toOption.map (·.endOffset) = some 0 := witness_end_before_start
+      unfold decode at this; rw [h] at this
+      simpa [Except.toOption] using this
+  obtain ⟨d, hd, hend⟩ := hd
+  unfold ggufLayers
+  simp only []
+  rw [if_neg (by decide)]
+  exact loop_stuck wNegSeek (some budget) Guards.pinned d (by decide) hd hend _ _
+
+/-- … and the working tree's decoder rejects that file -/
+example : (ggufLayers wNegSeek (some budget)).map (fun r => match r with | .error e => some e | .ok _ => none)
+    = some (some (.invalid "tensor size")) := by decide
+
+/-- non-vacuity: two header-only models back to back give two layers of 24 bytes each, a trailing
+    bare magic ends the loop quietly (clean EOF), a trailing partial magic is an error -/
+example : (ggufLayers (wGood ++ wGood)).map (fun r => r.toOption.map (fun ls => ls.map (fun l => (l.start, l.size, l.whole))))
+    = some (some [(0, 24, false), (24, 24, false)]) := by decide
+example : (ggufLayers wGood).map (fun r => r.toOption.map (fun ls => ls.map (fun l => (l.start, l.size, l.whole))))
+    = some (some [(0, 24, true)]) := by decide
+example : (ggufLayers (wGood ++ [71, 71, 85, 70])).map (fun r => r.toOption.map (fun ls => ls.map (fun l => (l.start, l.size))))
+    = some (some [(0, 24)]) := by decide
+example : (ggufLayers (wGood ++ [71, 71, 85])).map (fun r => r.toOption.isSome) = some false := by decide
 
 end OllamaVerif.C10
